@@ -111,8 +111,21 @@ def coeff_inputs(E):
 def inv_ntt_steps(sess, run, funcs):
     """copy-in closure and final scaling of inv_ntt; returns the admissible input magnitude of inv_ntt"""
     name = 'inv_ntt::{closure#0}::{closure#0}'
+    NEED0 = (1 << 23) - 1
     if name not in funcs:
-        raise e2.Refuse('inv_ntt copy-in closure not found')
+        # no per-coefficient closure: the copy-in may be a whole-array copy `R(w_hat[x].0)`; accept exactly that shape (identity)
+        import skel
+        outer = 'inv_ntt::{closure#0}'
+        if outer not in funcs:
+            raise e2.Refuse('inv_ntt copy-in closure not found')
+        Eo, po = skel.extract(funcs, outer, params={'KL': 8})
+        rs = po[0].ret_s if len(po) == 1 else ''
+        if len(po) == 1 and not po[0].rel() and re.match(r'^struct:(types::)?R\{0: mem:w_hat\[.*\]\.0\}$', rs):
+            run.functions.append('MIR ' + outer + ' (whole-array copy-in, identity)')
+            run.add_query({'name': f'inv_ntt copy-in is the identity (`{rs}`): admissible input magnitude is 2^23 - 1', 'engine': 'E2 skeleton', 'verdict': 'holds'})
+            admissible = NEED0
+            return _final_scaling(sess, run, funcs, admissible)
+        raise e2.Refuse(f'inv_ntt copy-in closure has an unrecognised shape: {rs}')
     run.functions.append('MIR ' + name)
     NEED = (1 << 23) - 1       # 2^8 * B0 <= 2^31 - 1 (eight doubling layers, lemma Bi)
     admissible = None
@@ -132,6 +145,10 @@ def inv_ntt_steps(sess, run, funcs):
             break
     if admissible is None:
         raise e2.Refuse('inv_ntt copy-in closure: no admissible input bound established')
+    return _final_scaling(sess, run, funcs, admissible)
+
+
+def _final_scaling(sess, run, funcs, admissible):
     # final scaling loop: *i = full_reduce32(mont_reduce(F_MONT * *i))
     f = funcs['inv_ntt']
     entry, head, opt = LM.loop_anchor(f, 'i', elem_ty='&mut i32')
@@ -154,6 +171,8 @@ def inv_ntt_steps(sess, run, funcs):
         run.inconclusive.append(f'F_MONT = {F} is not 256^-1 * 2^32 mod q')
     sess.discharge('inv_ntt final scaling: result in [0,q), result == t (mod q) with t*2^32 == F_MONT*x (mod q)',
                    z3.Or(y < 0, y >= Q, arg != F * x, (y - r) % Q != 0), pre=p, enc='int', fn='inv_ntt')
+
+
     return admissible
 
 
